@@ -23,7 +23,9 @@
   SUCCESS only ever comes from the server or from a stored entry, both of which need one).
 
   Not covered (stated residue): a crash *inside* one `PersistentData.write_file` call (torn file), and a
-  crash between the server's answer and the file write that follows it.
+  crash (or Ctrl-C) between the server's answer to `create_job`/`rerun_job` and the file write that follows it.
+  Sections 7 and 8 (added later) bring `get_results`, `track_progress`, Ctrl-C in status requests and sleeps,
+  deletion and listing into the same statements.
 -/
 import PercevalModel.Lemmas.C19
 
@@ -371,6 +373,50 @@ theorem current_results_lose_an_accepted_id :
     (run (step v) (create v true) ops).2.map (·.res) = [.ok, .ok, .ok, .ok, .raised .keyError] ∧
     (exec (step v) (create v true) ops).issued = [1, 0] ∧ diskIds (exec (step v) (create v true) ops) = [0] := by
   decide
+
+/-- **status_views_change_only_statuses** — what `progress()`, `list_*_jobs()`, `get_results()` and
+`track_progress()` may change, whatever the server answers, wherever they are interrupted or the process stops: in
+memory and in the file the jobs stay the same jobs in the same order (identifiers, platform metadata), no identifier
+is issued, no request leaves, the creation date stays; only statuses (and what hangs on them: the body dropped on
+SUCCESS, the results cache) can differ.  Together with `disk_refines_memory` (the file is the image of memory
+afterwards) this bounds what these operations write. -/
+theorem status_views_change_only_statuses (s : State) (hs : Inv s) (op : Op)
+    (hop : (∃ sts, op = .progress sts) ∨ (∃ k sts, op = .list k sts) ∨
+           (∃ sts rsps, op = .getResults sts rsps) ∨ (∃ sts, op = .track sts)) :
+    let s' := (step fixed s op).1
+    s'.mem.map (fun j => (j.id, j.hd)) = s.mem.map (fun j => (j.id, j.hd)) ∧
+    (s'.disk.getD []).map (fun e => (e.id, e.hd)) = (s.disk.getD []).map (fun e => (e.id, e.hd)) ∧
+    s'.issued = s.issued ∧ s'.sent = s.sent ∧ s'.next = s.next ∧ s'.created = s.created := by
+  have hclear : ∀ t : State, Frame t (clearScript t) := fun _ => ⟨rfl, rfl, rfl, rfl, rfl, rfl⟩
+  have hf : Frame s (step fixed s op).1 := by
+    rcases hop with ⟨sts, rfl⟩ | ⟨k, sts, rfl⟩ | ⟨sts, rsps, rfl⟩ | ⟨sts, rfl⟩
+    · have a : Frame s { s with outs := [], sts := sts } := ⟨rfl, rfl, rfl, rfl, rfl, rfl⟩
+      exact a.trans ((refreshAll_frame (inv_script hs [] sts)).trans (hclear _))
+    · simp only [step]
+      split
+      · exact (hclear s).trans (hclear _)
+      · have a : Frame s { s with outs := [], sts := sts } := ⟨rfl, rfl, rfl, rfl, rfl, rfl⟩
+        exact a.trans ((refreshAll_frame (inv_script hs [] sts)).trans (hclear _))
+    · have a : Frame s { s with outs := [], sts := sts, rsps := rsps } := ⟨rfl, rfl, rfl, rfl, rfl, rfl⟩
+      exact a.trans ((getResultsOp_frame (inv_script3 hs [] sts rsps)).trans (hclear _))
+    · have a : Frame s { s with outs := [], sts := sts, rsps := [] } := ⟨rfl, rfl, rfl, rfl, rfl, rfl⟩
+      exact a.trans ((trackOp_frame (inv_script3 hs [] sts [])).trans (hclear _))
+  have hi : Inv (step fixed s op).1 := step_inv hs (by
+    rcases hop with ⟨sts, rfl⟩ | ⟨k, sts, rfl⟩ | ⟨sts, rsps, rfl⟩ | ⟨sts, rfl⟩ <;> trivial)
+  have hd : ∀ t : State, Inv t → (t.disk.getD []).map (fun e => (e.id, e.hd)) = shape t.mem := by
+    intro t ht
+    simp [ht.disk, shape, List.map_map, Function.comp_def, toDict]
+  exact ⟨hf.shape, by rw [hd _ hi, hd _ hs]; exact hf.shape, hf.issued, hf.sent, hf.next, hf.created⟩
+
+/-- non-vacuity and sharpness: a `get_results` that refreshes two statuses (one of them inside `job.get_results()`)
+and is then cut by a failing results request: statuses and file change, identifiers and metadata do not -/
+example :
+    let s := exec (step fixed) (create fixed true)
+      [Op.add plainJob none, .add ctxJob none, launchPar [.accept 0, .accept 2]]
+    let s' := (step fixed s (.getResults [.st .unknown, .st .canceled, .st .success] [.ok false, .fault .httpError])).1
+    s.mem.map (·.st) = [.waiting, .waiting] ∧ s'.mem.map (·.st) = [.success, .canceled] ∧
+    (s'.disk.getD []).map (·.status) = [some .success, some .canceled] ∧
+    s'.mem.map (fun j => (j.id, j.hd)) = [(some 0, 1), (some 3, 1)] := by decide
 
 /-- **deletion yields a fresh empty group** — every state, whatever the group held: after the group's file was
 deleted (by name or with all groups) the name opens as an empty group created now, and the file is that group. -/
